@@ -66,6 +66,9 @@ func classifyComposite(info *types.Info, fn ast.Node, v types.Object) string {
 					kind = "outer"
 				} else if sel, ok := x.Fun.(*ast.SelectorExpr); ok && sel.Sel.Name == "NFACons" {
 					kind = "child"
+				} else if f := calleeFunc(info, x); f != nil && f.Name() != "NFACons" && typeIs(info.TypeOf(x), "lexergen/mode", "NFAComposite") {
+					// a same-package constructor helper returning a fresh composite
+					kind = "outer"
 				}
 			}
 			if inLoop && kind != "" {
@@ -84,7 +87,28 @@ func nfaNodeName(info *types.Info, fn ast.Node, e ast.Expr) string {
 	}
 	root := ast.Unparen(base)
 	if ix, ok := root.(*ast.IndexExpr); ok {
-		return "elem[" + exprString(ix.Index) + "]." + fv.Name()
+		t, k := linearForm(info, nil, ix.Index)
+		return "elem[" + linearString(t, k) + "]." + fv.Name()
+	}
+	if id, ok := root.(*ast.Ident); ok {
+		// value variable of `for i, v := range X[k:]` stands for X[i+k]
+		var name string
+		ast.Inspect(fn, func(n ast.Node) bool {
+			rs, ok := n.(*ast.RangeStmt)
+			if !ok || rs.Value == nil || usesObj(info, rs.Value) != info.Uses[id] || rs.Key == nil {
+				return true
+			}
+			if sl, ok := ast.Unparen(rs.X).(*ast.SliceExpr); ok && sl.High == nil && sl.Low != nil {
+				if k, ok := constInt(info, sl.Low); ok {
+					t, c := linearForm(info, nil, rs.Key)
+					name = "elem[" + linearString(t, c+k) + "]." + fv.Name()
+				}
+			}
+			return true
+		})
+		if name != "" {
+			return name
+		}
 	}
 	o := usesObj(info, root)
 	if o == nil {
@@ -306,28 +330,67 @@ func ruleLEX1(c *Ctx) {
 	// concatenation
 	if _, fd := p.FuncDecl("internal/ast", "LexerFactor.NFACons"); fd != nil {
 		es := collectEdges(info, fd, fd.Body)
-		okCat := len(es) == 1 && es[0].eps && es[0].from == "elem[i].E" && es[0].to == "elem[i + 1].B"
+		// one eps edge X[a].E -> X[a+1].B inside a loop whose index covers 0 .. len(X)-2
+		okCat := false
+		if len(es) == 1 && es[0].eps && strings.HasPrefix(es[0].from, "elem[") && strings.HasPrefix(es[0].to, "elem[") && strings.HasSuffix(es[0].from, "].E") && strings.HasSuffix(es[0].to, "].B") {
+			var fa, ta int64
+			var fv, tv string
+			if _, err := fmt.Sscanf(strings.TrimSuffix(strings.TrimPrefix(es[0].from, "elem["), "].E"), "%s %d", &fv, &fa); err == nil {
+				if _, err := fmt.Sscanf(strings.TrimSuffix(strings.TrimPrefix(es[0].to, "elem["), "].B"), "%s %d", &tv, &ta); err == nil {
+					okCat = fv == tv && ta == fa+1
+				}
+			}
+			// loop coverage: the index variable's range must make `from` run over 0..len-2
+			if okCat {
+				okCat = false
+				par := parents(fd)
+				for q := par[es[0].node]; q != nil; q = par[q] {
+					switch lp := q.(type) {
+					case *ast.ForStmt:
+						// i from (−fa) while i+fa < len-1  <=>  i < len - 1 - fa
+						if as, ok := lp.Init.(*ast.AssignStmt); ok && len(as.Rhs) == 1 {
+							start, _ := constInt(info, as.Rhs[0])
+							if be, ok := lp.Cond.(*ast.BinaryExpr); ok && be.Op == token.LSS {
+								t, k := linearForm(info, nil, be.Y)
+								lenTerm := ""
+								for a, cf := range t {
+									if cf == 1 && strings.HasPrefix(a, "len(") {
+										lenTerm = a
+									}
+								}
+								if lenTerm != "" && len(t) == 1 && start+fa == 0 && k == -1-fa {
+									okCat = true
+								}
+							}
+						}
+					case *ast.RangeStmt:
+						// for i := range X[1:]  (i = 0..len-2) with from = X[i]
+						if sl, ok := ast.Unparen(lp.X).(*ast.SliceExpr); ok && sl.High == nil && sl.Low != nil {
+							if k, ok := constInt(info, sl.Low); ok && k == 1 && fa == 0 {
+								okCat = true
+							}
+						}
+					}
+				}
+			}
+		}
 		okRet := false
 		ast.Inspect(fd.Body, func(n ast.Node) bool {
 			if rs, ok := n.(*ast.ReturnStmt); ok && len(rs.Results) == 1 {
 				if cl := compositeOf(rs.Results[0]); cl != nil {
 					b, e := kvOf(cl, "B"), kvOf(cl, "E")
-					if b != nil && e != nil && exprString(b) == "termCons[0].B" && exprString(e) == "termCons[len(termCons) - 1].E" {
-						okRet = true
+					if b != nil && e != nil {
+						bn, en := nfaNodeName(info, fd, b), nfaNodeName(info, fd, e)
+						if bn == "elem[ 0].B" && strings.HasPrefix(en, "elem[len(") && strings.HasSuffix(en, ") -1].E") {
+							okRet = true
+						}
 					}
 				}
 			}
 			return true
 		})
-		okLoop := false
-		ast.Inspect(fd.Body, func(n ast.Node) bool {
-			if fs, ok := n.(*ast.ForStmt); ok && fs.Cond != nil && strings.HasSuffix(exprString(fs.Cond), "< len(termCons) - 1") {
-				okLoop = true
-			}
-			return true
-		})
-		c.check(okCat && okRet && okLoop, rule, "ast.LexerFactor.NFACons/concatenation", p.Pos(fd.Pos()), "concatenation: T[i].E -> T[i+1].B (eps) for all i, result (T[0].B, T[n].E)",
-			fmt.Sprintf("concatenation is not the chain T[i].E->T[i+1].B with result (T[0].B, T[n].E) (edges {%s}, loop %v, result %v)", edgeSet(es), okLoop, okRet))
+		c.check(okCat && okRet, rule, "ast.LexerFactor.NFACons/concatenation", p.Pos(fd.Pos()), "concatenation: T[i].E -> T[i+1].B (eps) for all i, result (T[0].B, T[n].E)",
+			fmt.Sprintf("concatenation is not the chain T[i].E->T[i+1].B over all i with result (T[0].B, T[n].E) (edges {%s}, chain over all i: %v, result: %v)", edgeSet(es), okCat, okRet))
 	} else {
 		c.unres(rule, "ast.LexerFactor.NFACons", "", "function not found")
 	}
@@ -455,19 +518,24 @@ func ruleLEX2(c *Ctx) {
 			if rs, ok := n.(*ast.ReturnStmt); ok && len(rs.Results) == 1 && usesObj(info, rs.Results[0]) == winner {
 				okRet = true
 			}
-			if fs, ok := n.(*ast.ForStmt); ok && fs.Cond != nil && strings.Contains(exprString(fs.Cond), "< len(") {
+			if fs, ok := n.(*ast.ForStmt); ok && fs.Cond != nil && strings.Contains(exprString(fs.Cond), "< len(") && mentionsObj(info, fs.Body, winner) {
 				okAll = true
 			}
 			if rs, ok := n.(*ast.RangeStmt); ok && rs.Body != nil && mentionsObj(info, rs.Body, winner) {
+				// over the whole candidate list, or over all but the first (the initial winner)
 				okAll = true
+				if sl, ok := ast.Unparen(rs.X).(*ast.SliceExpr); ok {
+					lo, isC := constInt(info, sl.Low)
+					okAll = sl.High == nil && (sl.Low == nil || (isC && lo <= 1))
+				}
 			}
 			return true
 		})
 		c.check(okRet && okAll, rule, "mode.ModeBuilder.pickAction/returns-min", p.Pos(fd.Pos()), "every candidate is compared and the minimum is returned", "pickAction does not compare every candidate or does not return the minimum")
 	}
-	// candidates are all accepting NFA states of the DFA state
+	// candidates are gathered from all NFA states of the DFA state (in pickAction or a helper)
 	okCand := false
-	ast.Inspect(fd.Body, func(n ast.Node) bool {
+	inspectScope(p, pk, fd, 2, func(owner, n ast.Node) bool {
 		if rs, ok := n.(*ast.RangeStmt); ok && isField(info, rs.X, "lexergen/dfa", "State", "NFAStates") {
 			brk := false
 			ast.Inspect(rs.Body, func(m ast.Node) bool {
@@ -479,7 +547,9 @@ func ruleLEX2(c *Ctx) {
 				}
 				return true
 			})
-			okCand = !brk
+			if !brk {
+				okCand = true
+			}
 		}
 		return true
 	})
@@ -578,31 +648,63 @@ func ruleLEX3(c *Ctx) {
 	c.check(okLoop && okOrder, rule, "template/PushRune/search-before-actions", ti.Pos(search.Pos()),
 		"the actions of a row run only after the binary search over its transitions was exhausted (or the row is flagged non-greedy): longest match",
 		"the action dispatch can be reached before the transition search is exhausted")
-	// binary search arithmetic: e = j on `r < lower`, b = j+1 on `r > upper`
+	// binary search arithmetic: hi = mid under `r < lower`, lo = mid+1 under `r > upper`
 	if loop != nil {
-		okArith := 0
+		info := ti.Info
+		lcond, _ := loop.Cond.(*ast.BinaryExpr)
+		lo, hi := exprString(lcond.X), exprString(lcond.Y)
+		runeParam := paramObj(info, r.fd, 0)
+		defs := localDefs(info, r.fd.Body)
+		par := parents(r.fd)
+		// the probe: a local defined as lo + (hi-lo)/2 (or (lo+hi)/2)
+		mid := ""
+		for o, d := range defs {
+			ds := exprString(d)
+			if ds == lo+" + ("+hi+" - "+lo+") / 2" || ds == "("+lo+" + "+hi+") / 2" {
+				mid = o.Name()
+			}
+		}
+		below := func(e ast.Expr, pos bool) bool { // fact: r < X
+			l, op, rr, ok := cmpFact(e, pos)
+			if !ok {
+				return false
+			}
+			return (op == token.LSS && usesObj(info, l) == runeParam) || (op == token.GTR && usesObj(info, rr) == runeParam)
+		}
+		above := func(e ast.Expr, pos bool) bool { // fact: r > X
+			l, op, rr, ok := cmpFact(e, pos)
+			if !ok {
+				return false
+			}
+			return (op == token.GTR && usesObj(info, l) == runeParam) || (op == token.LSS && usesObj(info, rr) == runeParam)
+		}
+		okHi, okLo, other := false, false, false
 		ast.Inspect(loop.Body, func(n ast.Node) bool {
-			cc, ok := n.(*ast.CaseClause)
-			if !ok || len(cc.List) != 1 || len(cc.Body) != 1 {
+			as, ok := n.(*ast.AssignStmt)
+			if !ok || len(as.Lhs) != 1 || as.Tok != token.ASSIGN {
 				return true
 			}
-			be, ok := ast.Unparen(cc.List[0]).(*ast.BinaryExpr)
-			as, ok2 := cc.Body[0].(*ast.AssignStmt)
-			if !ok || !ok2 {
-				return true
-			}
-			cond, lhs, rhs := be.Op, exprString(as.Lhs[0]), exprString(as.Rhs[0])
-			hi := exprString(loop.Cond.(*ast.BinaryExpr).Y)
-			lo := exprString(loop.Cond.(*ast.BinaryExpr).X)
-			if cond == token.LSS && lhs == hi && rhs == "j" {
-				okArith++
-			}
-			if cond == token.GTR && lhs == lo && rhs == "j + 1" {
-				okArith++
+			lhs, rhs := exprString(as.Lhs[0]), exprString(as.Rhs[0])
+			facts := pathConds(info, par, as)
+			switch lhs {
+			case hi:
+				if rhs == mid && holds(facts, below) {
+					okHi = true
+				} else {
+					other = true
+				}
+			case lo:
+				if rhs == mid+" + 1" && holds(facts, above) {
+					okLo = true
+				} else {
+					other = true
+				}
 			}
 			return true
 		})
-		c.check(okArith == 2, rule, "template/PushRune/binary-search-steps", ti.Pos(loop.Pos()), "below the range => upper bound becomes j; above => lower bound becomes j+1", "the binary search does not narrow with e = j / b = j+1")
+		c.check(mid != "" && okHi && okLo && !other, rule, "template/PushRune/binary-search-steps", ti.Pos(loop.Pos()),
+			"the probe is the midpoint; below the range the upper bound becomes the probe, above it the lower bound becomes probe+1",
+			"the binary search does not narrow with hi = mid (rune below the range) / lo = mid+1 (rune above the range)")
 	}
 }
 
@@ -754,7 +856,29 @@ func ruleLEX5(c *Ctx) {
 	}
 	info2 := pk2.TypesInfo
 	okSubset, okClosure, okSig := false, false, false
-	ast.Inspect(nf.Body, func(n ast.Node) bool {
+	inspectScope(p, pk2, nf, 2, func(owner, n ast.Node) bool {
+		if owner != ast.Node(nf) {
+			// helpers: only the gathering loop is looked for there
+			if x, ok := n.(*ast.RangeStmt); ok && isSliceOf(info2.TypeOf(x.X), "lexergen/nfa", "State") {
+				early := false
+				ast.Inspect(x.Body, func(m ast.Node) bool {
+					switch b := m.(type) {
+					case *ast.BranchStmt:
+						if b.Tok == token.BREAK {
+							early = true
+						}
+					case *ast.ReturnStmt:
+						early = true
+					}
+					return true
+				})
+				adds := len(findCalls(info2, x.Body, false, func(fn *types.Func, _ *ast.CallExpr) bool { return fn != nil && fn.Name() == "Add" })) > 0
+				if adds && !early {
+					okSubset = true
+				}
+			}
+			return true
+		}
 		switch x := n.(type) {
 		case *ast.RangeStmt:
 			if isField(info2, x.X, "lexergen/dfa", "State", "NFAStates") {
@@ -775,14 +899,12 @@ func ruleLEX5(c *Ctx) {
 					okSubset = true
 				}
 			}
-		case *ast.AssignStmt:
-			if call, ok := x.Rhs[0].(*ast.CallExpr); ok {
-				if fn := calleeFunc(info2, call); fn != nil && fn.Name() == "eClosure" {
-					okClosure = true
-				}
-				if fn := calleeFunc(info2, call); fn != nil && fn.Name() == "sig" {
-					okSig = true
-				}
+		case *ast.CallExpr:
+			if fn := calleeFunc(info2, x); fn != nil && fn.Name() == "eClosure" {
+				okClosure = true
+			}
+			if fn := calleeFunc(info2, x); fn != nil && fn.Name() == "sig" {
+				okSig = true
 			}
 		}
 		return true
@@ -1012,29 +1134,35 @@ func ruleLEX7(c *Ctx) {
 	info2 := pk2.TypesInfo
 	okMax := false
 	found := false
+	fpar := parents(fl)
 	ast.Inspect(fl.Body, func(n ast.Node) bool {
-		ifs, ok := n.(*ast.IfStmt)
-		if !ok || !strings.Contains(exprString(ifs.Cond), ".Touches(") {
+		cl, ok := n.(*ast.CompositeLit)
+		if !ok || !typeIs(info2.TypeOf(cl), "lexergen/rang3", "Range") {
 			return true
 		}
-		ast.Inspect(ifs.Body, func(m ast.Node) bool {
-			cl, ok := m.(*ast.CompositeLit)
-			if !ok || !typeIs(info2.TypeOf(cl), "lexergen/rang3", "Range") {
-				return true
+		// built where the two ranges are known to touch
+		touching := holds(pathConds(info2, fpar, cl), func(e ast.Expr, pos bool) bool {
+			call, ok := ast.Unparen(e).(*ast.CallExpr)
+			if !ok || !pos {
+				return false
 			}
-			found = true
-			e := kvOf(cl, "E")
-			if e == nil && len(cl.Elts) == 2 {
-				e = cl.Elts[1]
-			}
-			if call, ok := e.(*ast.CallExpr); ok && len(call.Args) == 2 && exprString(call.Fun) == "max" {
-				a, b := exprString(call.Args[0]), exprString(call.Args[1])
-				if strings.HasSuffix(a, ".E") && strings.HasSuffix(b, ".E") && a != b {
-					okMax = true
-				}
-			}
-			return true
+			sel, ok := call.Fun.(*ast.SelectorExpr)
+			return ok && sel.Sel.Name == "Touches"
 		})
+		if !touching {
+			return true
+		}
+		found = true
+		e := kvOf(cl, "E")
+		if e == nil && len(cl.Elts) == 2 {
+			e = cl.Elts[1]
+		}
+		if call, ok := e.(*ast.CallExpr); ok && len(call.Args) == 2 && isMaxFunc(p, pk2, fl, call) {
+			a, b := exprString(call.Args[0]), exprString(call.Args[1])
+			if strings.HasSuffix(a, ".E") && strings.HasSuffix(b, ".E") && a != b {
+				okMax = true
+			}
+		}
 		return true
 	})
 	if !found {
@@ -1095,4 +1223,105 @@ func ruleLEX8(c *Ctx) {
 	rem := findCalls(info, cb.Body, false, func(fn *types.Func, _ *ast.CallExpr) bool { return fn != nil && fn.Name() == "Remove" })
 	c.check(len(adds) == 3 && len(rem) >= 1, rule, "mode.normalizeInputs/callback/relabel", p.Pos(cb.Pos()),
 		"the original transition is removed and re-added on each of the (up to three) pieces", fmt.Sprintf("the callback re-adds %d transitions and removes %d", len(adds), len(rem)))
+}
+
+// linearString renders a linear form deterministically: "<atom> <const>" for a single atom with
+// coefficient 1 (the only shape element indices take), else a sorted sum.
+func linearString(t map[string]int64, k int64) string {
+	if len(t) == 0 {
+		return fmt.Sprintf(" %d", k)
+	}
+	var atoms []string
+	for a := range t {
+		atoms = append(atoms, a)
+	}
+	sort.Strings(atoms)
+	if len(atoms) == 1 && t[atoms[0]] == 1 {
+		return fmt.Sprintf("%s %d", strings.ReplaceAll(atoms[0], " ", ""), k)
+	}
+	var parts []string
+	for _, a := range atoms {
+		parts = append(parts, fmt.Sprintf("%d*%s", t[a], strings.ReplaceAll(a, " ", "")))
+	}
+	return strings.Join(parts, "+") + fmt.Sprintf(" %d", k)
+}
+
+// isMaxFunc: the callee returns the larger of its two arguments (builtin max, a local closure or a
+// package function of the shape `if a > b { return a }; return b`).
+func isMaxFunc(p *Program, pk *packages.Package, scope ast.Node, call *ast.CallExpr) bool {
+	info := pk.TypesInfo
+	if builtinName(info, call) == "max" {
+		return true
+	}
+	var ftype *ast.FuncType
+	var body *ast.BlockStmt
+	if fn := calleeFunc(info, call); fn != nil {
+		if fd := p.funcDecls[fn.Origin()]; fd != nil {
+			ftype, body = fd.Type, fd.Body
+		}
+	} else if id, ok := call.Fun.(*ast.Ident); ok {
+		// local closure variable
+		obj := info.Uses[id]
+		ast.Inspect(scope, func(n ast.Node) bool {
+			as, ok := n.(*ast.AssignStmt)
+			if !ok || len(as.Lhs) != 1 || usesObj(info, as.Lhs[0]) != obj {
+				return true
+			}
+			if fl, ok := as.Rhs[0].(*ast.FuncLit); ok {
+				ftype, body = fl.Type, fl.Body
+			}
+			return true
+		})
+	}
+	if ftype == nil || body == nil {
+		return false
+	}
+	var ps []string
+	for _, fld := range ftype.Params.List {
+		for _, nm := range fld.Names {
+			ps = append(ps, nm.Name)
+		}
+	}
+	if len(ps) != 2 {
+		return false
+	}
+	a, b := ps[0], ps[1]
+	// find `if a OP b { return X } ... return Y`
+	var cond *ast.BinaryExpr
+	var thenRet, elseRet string
+	for i, st := range body.List {
+		ifs, ok := st.(*ast.IfStmt)
+		if !ok {
+			continue
+		}
+		be, ok := ifs.Cond.(*ast.BinaryExpr)
+		if !ok || len(ifs.Body.List) != 1 {
+			continue
+		}
+		r1, ok := ifs.Body.List[0].(*ast.ReturnStmt)
+		if !ok || len(r1.Results) != 1 {
+			continue
+		}
+		cond, thenRet = be, exprString(r1.Results[0])
+		if blk, ok := ifs.Else.(*ast.BlockStmt); ok && len(blk.List) == 1 {
+			if r2, ok := blk.List[0].(*ast.ReturnStmt); ok && len(r2.Results) == 1 {
+				elseRet = exprString(r2.Results[0])
+			}
+		} else if i+1 < len(body.List) {
+			if r2, ok := body.List[i+1].(*ast.ReturnStmt); ok && len(r2.Results) == 1 {
+				elseRet = exprString(r2.Results[0])
+			}
+		}
+	}
+	if cond == nil {
+		return false
+	}
+	l, r := exprString(cond.X), exprString(cond.Y)
+	switch cond.Op {
+	case token.GTR, token.GEQ: // l > r => then must return l, else r
+		return ((l == a && r == b) || (l == b && r == a)) && thenRet == l && elseRet == r
+	case token.LSS, token.LEQ: // l < r => then must return r
+		return ((l == a && r == b) || (l == b && r == a)) && thenRet == r && elseRet == l
+	}
+	return false
 }
